@@ -8,6 +8,9 @@
 #include "util/pcqueue.hh"
 #include "util/pool.hh"
 #include "util/string_piece.hh"
+#ifdef PREPROCESS_VERIF
+#include "util/verif_hooks.hh"
+#endif
 
 #include <string>
 #include <thread>
@@ -55,26 +58,53 @@ void Input(util::UnboundedSingleQueue<QueueEntry> &queue, util::scoped_fd &proce
     std::vector<FieldRange> indices;
     ParseFields(options.key.c_str(), indices);
     DefragmentFields(indices);
+#ifdef PREPROCESS_VERIF
+    uint64_t verif_record = 0;
+#endif
     for (util::StringPiece l : util::FilePiece(STDIN_FILENO)) {
+#ifdef PREPROCESS_VERIF
+      PREPROCESS_VERIF_TRACE('F', "rec", verif_record);
+#endif
       HashWithSeed callback= HashWithSeed();
       RangeFields(l, indices, options.field_separator, callback);
       entry.first = callback.get_hash();
       std::pair<std::unordered_map<uint64_t, util::StringPiece>::iterator, bool> res(cache.insert(entry));
+#ifdef PREPROCESS_VERIF
+      PREPROCESS_VERIF_TRACE('F', "lines", res.second ? 1 : 0);
+#endif
       if (res.second) {
         // New entry.  Send to captive process.
+#ifdef PREPROCESS_VERIF
+        PREPROCESS_VERIF_TRACE('F', "send", verif_record);
+#endif
         process << l << '\n';
         // Guarantee we flush to process every so often.
         if (!--flush_count) {
+#ifdef PREPROCESS_VERIF
+          PREPROCESS_VERIF_TRACE('F', "flush", verif_record);
+#endif
           process.flush();
           flush_count = flush_rate;
         }
       }
       // Pointer to hash table entry.
       q_entry.value = &res.first->second;
+#ifdef PREPROCESS_VERIF
+      PREPROCESS_VERIF_TRACE('F', "enq", verif_record);
+#endif
       queue.Produce(q_entry);
+#ifdef PREPROCESS_VERIF
+      ++verif_record;
+#endif
     }
+#ifdef PREPROCESS_VERIF
+    PREPROCESS_VERIF_TRACE('F', "eof", verif_record);
+#endif
   }
   // Poison.
+#ifdef PREPROCESS_VERIF
+  PREPROCESS_VERIF_TRACE('F', "enq-poison", 0);
+#endif
   q_entry.value = NULL;
   queue.Produce(q_entry);
 }
@@ -90,18 +120,34 @@ void Output(util::UnboundedSingleQueue<QueueEntry> &queue, util::scoped_fd &proc
   // This forces the string_pool to always return non-NULL.
   string_pool.Allocate(1);
   QueueEntry q;
+#ifdef PREPROCESS_VERIF
+  uint64_t verif_record = 0, verif_line = 0;
+#endif
   while (queue.Consume(q).value) {
     util::StringPiece &value = *q.value;
+#ifdef PREPROCESS_VERIF
+    PREPROCESS_VERIF_TRACE('C', "deq", verif_record);
+    PREPROCESS_VERIF_TRACE('C', "need", value.data() ? 0 : 1);
+#endif
     if (!value.data()) {
       // New entry, not cached.
       util::StringPiece got = in.ReadLine();
+#ifdef PREPROCESS_VERIF
+      PREPROCESS_VERIF_TRACE('C', "line", verif_line++);
+#endif
       // Allocate memory to store a copy of the line.
       char *copy_to = (char*)string_pool.Allocate(got.size());
       memcpy(copy_to, got.data(), got.size());
       value = util::StringPiece(copy_to, got.size());
     }
     out << value << '\n';
+#ifdef PREPROCESS_VERIF
+    PREPROCESS_VERIF_TRACE('C', "emit", verif_record++);
+#endif
   }
+#ifdef PREPROCESS_VERIF
+  PREPROCESS_VERIF_TRACE('C', "deq-poison", verif_record);
+#endif
 }
 
 int main(int argc, char *argv[]) {
